@@ -245,11 +245,12 @@ def stepD (st : St) (fs : List String) (impl : String) : Res :=
         | some md =>
           if tooBig md then ⟨adopt st d impl, "*", "-"⟩ else
           let outs := outcomes (orders md) (fun o => dump (fromIncoming o))
-          let v := if !(outs.contains impl) then "VIOL no iteration order of the map explains FromIncomingContext's result"
-            else if !(noFoldCollision md) then "ok"
-            else match parseMD impl with
+          let sv := if !(noFoldCollision md) then "ok" else match parseMD impl with
               | some im => specMD im (allKeys md) (foldLookup md)
               | none => "VIOL unparsable answer"
+          let v := if sv != "ok" then sv
+            else if !(outs.contains impl) then "VIOL no iteration order of the map explains FromIncomingContext's result"
+            else "ok"
           match outs with
           | [o] => ⟨(step st (.fromin d c)).1, o, v⟩
           | _ => ⟨adopt st d impl, "*", v⟩
@@ -263,11 +264,12 @@ def stepD (st : St) (fs : List String) (impl : String) : Res :=
         | some raw, some ros =>
           if tooBig (raw.md.getD []) then ⟨adopt st d impl, "*", "-"⟩ else
           let outs := outcomes ros (fun r => dump (fromOutgoing r))
-          let v := if !(outs.contains impl) then "VIOL no iteration order of the map explains FromOutgoingContext's result"
-            else if !(noFoldCollision (raw.md.getD [])) then "ok"
-            else match parseMD impl with
+          let sv := if !(noFoldCollision (raw.md.getD [])) then "ok" else match parseMD impl with
               | some im => specMD im (allKeys (raw.md.getD []) ++ kvCands raw.added) (specOutgoing raw)
               | none => "VIOL unparsable answer"
+          let v := if sv != "ok" then sv
+            else if !(outs.contains impl) then "VIOL no iteration order of the map explains FromOutgoingContext's result"
+            else "ok"
           match outs with
           | [o] => ⟨(step st (.fromout d c)).1, o, v⟩
           | _ => ⟨adopt st d impl, "*", v⟩
